@@ -10,6 +10,7 @@ mod util;
 mod board;
 mod keys;
 mod table;
+mod tables;
 
 fn main() {
     let args: Vec<String> = env::args().collect();
@@ -22,6 +23,7 @@ fn main() {
         "board" => board::run(rest),
         "keys" => keys::run(rest),
         "table" => table::run(rest),
+        "tables" => tables::run(rest),
         other => {
             eprintln!("unknown family {}", other);
             2
